@@ -1853,8 +1853,8 @@ func (query *Query) exec() (result any, err error) {
 		rs = nil
 		goto FINALIZE
 	}
-	if limit >= len(rs) {
-		limit = len(rs)
+	if limit >= len(rs)-offset {
+		limit = len(rs) - offset
 	}
 	rs = rs[offset:][:limit]
 FINALIZE:
